@@ -77,9 +77,28 @@ def gen_limit(rng, tier):
 
 # ----------------------------------------------------------------------------- part B: the service
 
+def _held_window(rng, ops):
+    """reads between the completion of a call and the moment its caller lets go of the finished future"""
+    r = rng.random()
+    if r < 0.45:
+        ops.append("probe in_flight")
+    if r < 0.30 or r > 0.85:
+        ops.append("probe limit")
+        ops.append("probe ready")
+
+
 def gen_service(rng, tier):
     kind, h = _cfg(rng, True)
     ops = []
+    # callers that keep the finished call future alive (`keep=1`: a pinned future polled by reference, select! over
+    # &mut fut) and drop it later (`release c`), in none / some / most / all of the calls of a case
+    keepp = rng.choice([0.0, 0.0, 0.25, 0.5, 0.8, 1.0])
+    if keepp > 0 and rng.random() < 0.4:
+        # few slots, fixed limit: finished futures that are still held must not occupy them
+        lim = rng.choice([1, 1, 2, 3])
+        hw = h.split()
+        hw = [("min=%d" % lim) if w.startswith("min=") else ("max=%d" % lim) if w.startswith("max=") else w for w in hw]
+        h = " ".join(hw)
     if kind == "vegas" and rng.random() < 0.8:
         n = rng.choice([8, 9, 9, 10, 11])
         ops.append("manual warm prog=%s" % "".join("S%d" % rng.choice([7, 7, 7, 4, 5]) for _ in range(n)))
@@ -88,8 +107,13 @@ def gen_service(rng, tier):
     ncall = rng.randint(2, 12)
     pending = list(range(1, ncall + 1))
     arrived, checked = [], []
+    keepers = []          # arrived with keep=1 and not yet released (whether or not they have resolved)
     marks = []
     now = 0
+
+    def kp():
+        return " keep=1" if rng.random() < keepp else ""
+
     for _ in range(rng.randint(8, 45)):
         r = rng.random()
         if pending and (r < 0.30 or not arrived):
@@ -103,17 +127,28 @@ def gen_service(rng, tier):
             out = pick_outcome(rng, 6, 2, 1, 1)
             if rng.random() < 0.7:
                 ops.append("probe limit")
-            ops.append("arrive %d inner=%d:%s" % (c, lat, out))
+            k = kp()
+            ops.append("arrive %d inner=%d:%s%s" % (c, lat, out, k))
             arrived.append(c)
+            if k:
+                keepers.append(c)
             marks.append(now + lat)
             if rng.random() < 0.3:
                 ops.append("poll %d" % c)
+                if k:
+                    _held_window(rng, ops)
         elif r < 0.38 and checked:
             c = checked.pop(rng.randrange(len(checked)))
-            ops.append("arrive %d inner=%d:%s" % (c, rng.choice([0, 1, 4]), pick_outcome(rng, 6, 2, 1, 1)))
+            k = kp()
+            ops.append("arrive %d inner=%d:%s%s" % (c, rng.choice([0, 1, 4]), pick_outcome(rng, 6, 2, 1, 1), k))
             arrived.append(c)
+            if k:
+                keepers.append(c)
         elif r < 0.55 and arrived:
-            ops.append("poll %d" % rng.choice(arrived[-5:] if rng.random() < 0.9 else arrived))
+            c = rng.choice(arrived[-5:] if rng.random() < 0.9 else arrived)
+            ops.append("poll %d" % c)
+            if c in keepers:
+                _held_window(rng, ops)
         elif r < 0.64 and arrived:
             c = rng.choice(arrived[-5:])
             ops.append("drop %d" % c)
@@ -129,8 +164,23 @@ def gen_service(rng, tier):
             now += d
         elif r < 0.86:
             ops.append("settle")
+            if keepers:
+                _held_window(rng, ops)
         elif r < 0.90:
             ops.append("manual check c=%d" % rng.choice(arrived + checked + [99]))
+        elif r < 0.95 and keepers:
+            # the caller lets go of its future object: in every phase (still running: nothing to let go of yet;
+            # resolved: a finished future is dropped; a second time / never arrived: nothing), with reads around it
+            c = rng.choice(keepers + [99]) if rng.random() < 0.9 else rng.choice(arrived + [99])
+            if rng.random() < 0.5:
+                ops.append("probe in_flight")
+                ops.append("probe ready")
+            ops.append("release %d" % c)
+            if c in keepers and rng.random() < 0.8:
+                keepers.remove(c)
+            if rng.random() < 0.6:
+                ops.append("probe in_flight")
+                ops.append("probe ready")
         else:
             ops.append("probe in_flight")
             ops.append("probe limit")
@@ -139,15 +189,43 @@ def gen_service(rng, tier):
     ops.append("adv %d" % rng.choice([0, 1, 20]))
     ops.append("settle")
     ops.append("probe in_flight")
+    if keepers:
+        # finished futures are still held by their callers: they do not count, they do not block
+        ops.append("probe limit")
+        ops.append("probe ready")
     if rng.random() < 0.85:
         ops.append("dropall")
         ops.append("probe in_flight")
         ops.append("probe limit")
         ops.append("probe ready")
-        for i in range(rng.choice([1, 2, 3, 6])):
+        if keepers and rng.random() < 0.4:
+            for c in keepers:
+                ops.append("release %d" % c)
+            keepers = []
+            ops.append("probe in_flight")
+            ops.append("probe ready")
+        nb = rng.choice([1, 2, 3, 6])
+        quick = keepp > 0 and rng.random() < 0.6
+        for i in range(nb):
             ops.append("probe limit")
-            ops.append("arrive %d inner=1000:ok" % (100 + i))
+            if quick:
+                # short calls by callers that keep the finished future: each completes before the next arrives,
+                # so with `limit` finished futures alive the next caller must still be admitted
+                ops.append("arrive %d inner=0:%s keep=1" % (100 + i, rng.choice(["ok", "ok", "err1"])))
+                ops.append("poll %d" % (100 + i))
+                keepers.append(100 + i)
+                if rng.random() < 0.5:
+                    ops.append("probe in_flight")
+            else:
+                ops.append("arrive %d inner=1000:ok%s" % (100 + i, kp()))
         ops.append("probe in_flight")
+        ops.append("probe ready")
+    if keepers:
+        rng.shuffle(keepers)
+        for c in keepers[:rng.randint(0, len(keepers))]:
+            ops.append("release %d" % c)
+        ops.append("probe in_flight")
+        ops.append("probe limit")
         ops.append("probe ready")
     return {"header": "adaptive " + h, "ops": ops}
 
@@ -160,6 +238,49 @@ def gen(rng, tier):
 
 def _is_service(case):
     return case["header"].split()[0] == "adaptive"
+
+
+def _keepers(case):
+    """callers that keep their call future alive after it has resolved (`arrive c … keep=1`)"""
+    ks = set()
+    for o in case["ops"]:
+        w = o.split()
+        if len(w) > 1 and w[0] == "arrive" and "keep=1" in w[2:]:
+            ks.add(w[1])
+    return ks
+
+
+def _releases(meta):
+    """{line index: [callers whose finished future was dropped just before that line]}"""
+    rel = {}
+    for idx, m in (meta or []):
+        w = m.split()
+        if w and w[0] == "#release" and len(w) > 1 and idx >= 0:
+            rel.setdefault(idx, []).append(w[1])
+    return rel
+
+
+class _Held:
+    """finished call futures that are still alive (resolved with a value by a `keep=1` caller, not yet released),
+    reconstructed from the implementation's log and the harness's `#release` marks"""
+    def __init__(self, case, meta):
+        self.keepers = _keepers(case)
+        self.rel = _releases(meta)
+        self.held = set()
+
+    def before(self, i):
+        for c in self.rel.get(i, []):
+            self.held.discard(c)
+
+    def after(self, w):
+        if w and w[0] == "result" and w[1] in self.keepers and w[2] not in ("panic", "notready") and not w[2].startswith("notready"):
+            self.held.add(w[1])
+
+    def note(self):
+        if not self.held:
+            return ""
+        return " [%d finished call future(s) still held by caller(s) %s: a completed call must not count]" % (
+            len(self.held), ",".join(sorted(self.held, key=int)))
 
 
 def _observed_limits(w):
@@ -193,22 +314,26 @@ def mon_bounds(case, lines, meta):
 
 def mon_inflight(case, lines, meta):
     """in_flight() equals the number of inner calls started and not finished / panicked / dropped, at every
-    probe; in particular 0 once nothing is running"""
+    probe; in particular 0 once nothing is running — a call stops counting when it completes or fails, also while
+    the caller keeps the finished future object alive"""
     if not _is_service(case):
         return None
     live = set()
+    hd = _Held(case, meta)
     for i, l in enumerate(lines):
         _, w = tparse(l)
+        hd.before(i)
         if not w:
             continue
+        hd.after(w)
         if w[0] == "inner_call":
             live.add(w[2])
         elif w[0] in ("inner_done", "inner_drop"):
             live.discard(w[2])
         elif w[0] == "probe" and w[1] == "in_flight":
             if not w[3].isdigit() or int(w[3]) != len(live):
-                return "line %d: in_flight() = %s but %d inner calls are started and not finished/dropped%s" % (
-                    i, w[3], len(live), " (quiescent)" if not live else "")
+                return "line %d: in_flight() = %s but %d inner calls are started and not finished/dropped%s%s" % (
+                    i, w[3], len(live), " (quiescent)" if not live else "", hd.note())
     return None
 
 
@@ -220,10 +345,13 @@ def mon_ready(case, lines, meta):
     live = set()
     limit = None           # last probed limit, valid until the algorithm gets feedback
     prechecked = set()
+    hd = _Held(case, meta)
     for i, l in enumerate(lines):
         _, w = tparse(l)
+        hd.before(i)
         if not w:
             continue
+        hd.after(w)
         if "lost-wakeup" in l:
             return "line %d: poll_ready returned Pending without waking the task (%s)" % (i, l)
         if w[0] == "inner_call":
@@ -245,15 +373,15 @@ def mon_ready(case, lines, meta):
             limit = int(w[3]) if w[3].isdigit() else None
         elif w[0] == "result" and w[2] == "notready":
             if limit is not None and len(live) < limit:
-                return "line %d: caller %s refused readiness with %d calls in flight, limit %d" % (i, w[1], len(live), limit)
+                return "line %d: caller %s refused readiness with %d calls in flight, limit %d%s" % (i, w[1], len(live), limit, hd.note())
         elif w[0] == "check":
             if w[2] == "ready":
                 prechecked.add(w[1])
             if limit is not None and (w[2] == "ready") != (len(live) < limit):
-                return "line %d: ahead-of-time readiness check of %s answered %s with %d calls in flight, limit %d" % (i, w[1], w[2], len(live), limit)
+                return "line %d: ahead-of-time readiness check of %s answered %s with %d calls in flight, limit %d%s" % (i, w[1], w[2], len(live), limit, hd.note())
         elif w[0] == "probe" and w[1] == "ready":
             if limit is not None and (w[3] == "1") != (len(live) < limit):
-                return "line %d: probe caller readiness = %s with %d calls in flight, limit %d" % (i, w[3], len(live), limit)
+                return "line %d: probe caller readiness = %s with %d calls in flight, limit %d%s" % (i, w[3], len(live), limit, hd.note())
     return None
 
 
@@ -288,10 +416,27 @@ def transitions(case, lines, meta=None):
     tags.append("A:kind-" + kind)
     live = set()
     last_limit = None
-    for l in lines:
+    hd = _Held(case, meta)
+    for i, l in enumerate(lines):
         _, w = tparse(l)
+        for c in hd.rel.get(i, []):
+            if c in hd.held:
+                tags.append("A:release-held")
+        hd.before(i)
         if not w:
             continue
+        nh = len(hd.held)
+        hd.after(w)
+        if len(hd.held) > nh:
+            tags.append("A:result-kept")
+        if hd.held and w[0] == "probe" and w[1] in ("in_flight", "ready"):
+            tags.append("A:probe-with-held")
+        # the situations in which a slot given back at drop (instead of at completion) would change the answer
+        if hd.held and last_limit is not None and len(live) < last_limit <= len(live) + len(hd.held):
+            if (w[0] == "probe" and w[1] == "ready" and w[3] == "1") or (w[0] == "check" and w[2] == "ready"):
+                tags.append("A:ready-although-held-fill-limit")
+            if w[0] == "inner_call":
+                tags.append("A:admitted-although-held-fill-limit")
         if w[0] == "inner_call":
             live.add(w[2])
             tags.append("A:inner_call")
@@ -333,7 +478,9 @@ ALL_TR = ["L:kind-aimd", "L:kind-vegas", "L:step", "L:skip", "L:switch", "L:warm
           "L:final-at-min", "L:final-at-max", "L:final-inside",
           "A:kind-aimd", "A:kind-vegas", "A:inner_call", "A:in-flight-over-limit", "A:dropped-running",
           "A:result-ok", "A:result-err", "A:result-panic", "A:result-notready", "A:check-ready", "A:check-refused",
-          "A:probe-ready-0", "A:probe-ready-1", "A:probe-in_flight-zero", "A:limit-up", "A:limit-down", "A:noop"]
+          "A:probe-ready-0", "A:probe-ready-1", "A:probe-in_flight-zero", "A:limit-up", "A:limit-down", "A:noop",
+          "A:result-kept", "A:release-held", "A:probe-with-held",
+          "A:ready-although-held-fill-limit", "A:admitted-although-held-fill-limit"]
 
 LEVEL_NOTE = ("Trusted: Lean kernel; the transcription of aimd.rs / algorithm.rs (one model step per atomic operation, in program order) in "
               "TR.Model.Limit and of service.rs in TR.Model.Adaptive, validated only by the sampled correspondence check (the algorithms run the same "
@@ -361,8 +508,11 @@ SPECS = {
                 "random schedule of atomic-operation turns (incl. turns for finished / non-existent threads), optional sequential warm-up straddling "
                 "Vegas's min_samples=10, min 0..5, max=min+0..20, initial below/inside/above the range, dyadic decrease factors 0..1. `adaptive …`: "
                 "the service over the scripted inner service: arrive (clone+poll_ready+call) / poll / drop / adv / settle / ahead-of-time readiness "
-                "checks / probes in_flight, limit, ready; latencies 0..12 ms, ok/err/panic/never; ends with quiescence and a burst of arrivals up to "
-                "and past the limit. distinct = distinct implementation log; non-trivial = an interleaving in which the schedule switches between "
+                "checks / probes in_flight, limit, ready; latencies 0..12 ms, ok/err/panic/never; callers that keep the finished call future "
+                "alive (`arrive … keep=1`, in 0 / 25 / 50 / 80 / 100 % of the calls of a case, 40 % of those cases with a fixed limit 1..3) and let "
+                "go of it at any point (`release c`: while running, after completion, twice, never), with in_flight / limit / ready reads between "
+                "completion and release; ends with quiescence and a burst of arrivals up to and past the limit (long calls, or short kept calls "
+                "that each complete before the next arrives). distinct = distinct implementation log; non-trivial = an interleaving in which the schedule switches between "
                 "running threads (limit) / a refusal, a cancelled running call, a panic or an ahead-of-time check (service)",
         "level_text": "Theorems TR.Props.C13.{limit_in_bounds, limit_in_bounds_final, limit_in_bounds_rounds, limit_is_last_store, vegas_choice_arbitrary, "
                       "seq_limit_in_bounds, aimd_budget_controller_in_bounds}: for every configuration with min <= max and decrease factor <= 1, AIMD and "
@@ -371,8 +521,14 @@ SPECS = {
                       "AIMD budget). {in_flight_exact, in_flight_matches_log, quiescent_zero, ready_iff_capacity, admitted_below_limit, refused_at_limit, "
                       "every_check_exact, checked_had_capacity, service_limit_in_bounds}: in every reachable state of the service, for all arrival / "
                       "completion / cancellation / panic orders, in_flight = |running| = calls started - finished/dropped in the log, hence 0 at "
-                      "quiescence; readiness is refused iff in_flight >= limit at that step. TR.Mutants.AdaptiveNoGuard: the pinned service (no guard) "
-                      "with the kernel-checked witness (two calls dropped => in_flight = 2 and every readiness check refused, forever).",
+                      "quiescence; readiness is refused iff in_flight >= limit at that step. {running_is_scheduled, completion_frees_slot, "
+                      "drop_frees_slot, held_future_not_in_flight, letting_go_changes_nothing}: a call stops counting at the poll that observes its "
+                      "completion / failure / panic, or when it is dropped - whether or not the caller keeps the finished future object alive; a held "
+                      "finished future is not running, is not counted and does not block readiness; dropping it later changes nothing. "
+                      "TR.Mutants.AdaptiveNoGuard: the pinned service (no guard) "
+                      "with the kernel-checked witness (two calls dropped => in_flight = 2 and every readiness check refused, forever); "
+                      "TR.Mutants.AdaptiveSlotAtDrop (same file): the guard owned by the future object (slot given back at drop, not at completion) "
+                      "with its witness (limit 1, one kept completed call => in_flight = 1, nothing running, readiness refused).",
         "level_note": LEVEL_NOTE,
         "trusted": ["transcription of AimdController / Aimd / Vegas at atomic-operation granularity in TR.Model.Limit and of AdaptiveService in "
                     "TR.Model.Adaptive (sampled by the correspondence check: same schedule, same step/skip trace, same reads, same final limit)",
